@@ -139,6 +139,12 @@ func (o *templatedObject) materialisePropNames() {
 	}
 }
 
+func (o *templatedObject) hasNoIdxProps() bool {
+	o.materialisePropNames()
+	o.ensurePropOrder()
+	return o.idxPropCount == 0
+}
+
 func (o *templatedObject) setOwnStr(p unistring.String, v Value, throw bool) bool {
 	existing := o.getOwnPropStr(p) // materialise property (in case it's an accessor)
 	if existing == nil {
